@@ -40,6 +40,20 @@ package lexer
 //@ pure func gapStart(k int, POS array[*Token]int, TYP array[*Token]string, VAL array[*Token]string, res []*Token) int =
 //@     k <= 0 ? 0 : POS[res[k-1]] + ext(TYP[res[k-1]], VAL[res[k-1]])
 
+// character classes of the spec grammar (C08: what is a well-formed name is exactly this, no more and no less)
+//@ func isLowercase
+//@   ensures def: result == (c >= 'a' && c <= 'z')
+//@ func isUppercase
+//@   ensures def: result == upper(c)
+//@ func isOkInArg
+//@   ensures def: result == okArg(c)
+//@ func isLetter
+//@   ensures def: result == letter(c)
+//@ func isDigit
+//@   ensures def: result == (c >= '0' && c <= '9')
+//@ func isOkLongOpt
+//@   ensures def: result == okLong(c, first)
+
 //@ func Tokenize
 //@   reveal blankRange, tokShape
 //@   ensures error: result1 != nil ==> result0 == nil && isType(result1, "*ParseError") &&
